@@ -50,7 +50,10 @@ def specC02 (bin : List Nat) (pf : Int) (tracks : List (List Event)) : String :=
               let exp := expected 0 (normalize es) ++ [eotMsg]
               if l == exp then go (i+1) bs ess
               else s!"holds=0 why=track-{i}-" ++ firstDiff l exp
-          else go (i+1) bs ess
+          else if es.any (fun e => e.kind == .directSmf && !e.data.isEmpty) then go (i+1) bs ess   -- user-injected bytes: excluded
+          else match decodeTrack (b.length + 1) b with
+            | none => s!"holds=0 why=track-{i}-is-not-a-legal-event-stream"
+            | some _ => go (i+1) bs ess
         | _, _ => "holds=1"
       go 0 bodies tr
 
